@@ -15,7 +15,7 @@ import (
 // limit - one dimension at the limit per entry, every other dimension small - so that an
 // encoder / decoder pair that disagrees about whether a limit is inclusive shows as a failed
 // round trip. It is a catalogue of its own (LimitValues, LimitEnvelopes): the entries are up to
-// 130 KB long and are deliberately NOT part of Values / Envelopes / Seeds, whose entries are
+// 85 KB long and are deliberately NOT part of Values / Envelopes / Seeds, whose entries are
 // mutated byte by byte (C13) and cut into chunks (C16).
 //
 // The documented limits (channel/allocation.go MaxNumAssets, MaxNumParts,
